@@ -94,6 +94,7 @@ static Register t4("c07.trim.n2s3.a4b4", "C07", "pairs of TRIMMED automata of TA
 static Register t5("c07.trim.n2s2.a3b3", "C07", "pairs of TRIMMED automata of TA(2,{a:0,b:0,g:2},<=3 rules)", [](Env& e) { bodyTrim(e, "c07.trim.n2s2.a3b3", 2, dom::Sigma2(), 3, 3); });
 static Register t6("c07.trim.n3s2.a2b3", "C07", "pairs of TRIMMED automata of TA(3,{a:0,b:0,g:2}): A <=2 rules x B <=3 rules", [](Env& e) { bodyTrim(e, "c07.trim.n3s2.a2b3", 3, dom::Sigma2(), 2, 3); });
 static Register t7("c07.trim.n3ah.a2b3", "C07", "pairs of TRIMMED automata of TA(3,{a:0,h:3}): A <=2 x B <=3 rules (ternary symbol: large tuple products)", [](Env& e) { bodyTrim(e, "c07.trim.n3ah.a2b3", 3, dom::SigmaAH(), 2, 3); });
+static Register t8b("c07.trim.n3ah.a3b3", "C07", "pairs of TRIMMED automata of TA(3,{a:0,h:3}): A <=3 x B <=3 rules", [](Env& e) { bodyTrim(e, "c07.trim.n3ah.a3b3", 3, dom::SigmaAH(), 3, 3); });
 static Register t8("c07.trim.n3ah.a3b4", "C07", "pairs of TRIMMED automata of TA(3,{a:0,h:3}): A <=3 x B <=4 rules", [](Env& e) { bodyTrim(e, "c07.trim.n3ah.a3b4", 3, dom::SigmaAH(), 3, 4); });
 static Register t9("c07.trim.n4ag.a2b4", "C07", "pairs of TRIMMED automata of TA(4,{a:0,g:2}): A <=2 x B <=4 rules", [](Env& e) { bodyTrim(e, "c07.trim.n4ag.a2b4", 4, dom::SigmaAG(), 2, 4); });
 }  // namespace c07
